@@ -423,7 +423,8 @@ class Interp:
                                     "attrs": {"sampling_interval": op["interval"], "offset": op.get("offset")}})
         elif kind == "range":
             h.append_range_dimension(ticks=op.get("ticks"), label=op.get("label"), unit=op.get("unit"))
-            da.info["dims"].append({"kind": "range", "link": None})
+            da.info["dims"].append({"kind": "range", "link": None,
+                                    "attrs": {"ticks": list(op["ticks"])} if op.get("ticks") else {}})
         elif kind == "set":
             h.append_set_dimension(op.get("labels"))
             da.info["dims"].append({"kind": "set", "link": None})
@@ -460,6 +461,7 @@ class Interp:
         h = self.handle(da, op.get("how", "name"))
         h.dimensions[di].link_data_array(self.handle(tgt), index)
         dims[di]["link"] = tgt
+        (dims[di].get("attrs") or {}).pop("ticks", None)
 
     def op_del_dims(self, op):
         da = self.pick("array", op["da"])
@@ -507,6 +509,8 @@ class Interp:
         setattr(h, attr, val)
         if attr in ("sampling_interval", "offset"):
             dims[di].setdefault("attrs", {})[attr] = val
+        if attr == "ticks":
+            dims[di].setdefault("attrs", {})["ticks"] = list(val)
         link = dims[di].get("link")
         if attr == "ticks":
             dims[di]["link"] = None
